@@ -103,5 +103,21 @@ CHECKS["C03"] = {
             "differs from UTF-16 order only for non-BMP vs U+E000..U+FFFF; not judged here.",
 }
 
+CHECKS["C05"] = {
+    "text": "Proofs (closed under the global context): every typing DECISION of the builder equals the declarative tables of spec/Typing.v (docs/language.md): "
+            "binary operators on run-time operands are accepted exactly when the table assigns a type, which is the result type (C05_binary + "
+            "C05_binary_is_the_check), likewise unary operators; is_assignable = spec_assignable (no implicit conversion other than literal class -> concrete "
+            "type, enum alias, object upcast); `as` is accepted exactly for the documented casts (C05_cast); deduce_concrete_type = the one common type "
+            "(C05_common_type); the constant-folding path admits operand types exactly when the run-time path does, what it rejects beyond that are value "
+            "errors (C05_const_dyn_agree; only exception null == null). Whole programs are decided one by one: the real tir::build* against the model on the "
+            "EXHAUSTIVE operator table (25 binary operators x 28 x 28 operand representatives, unary, 16 cast targets, Math.max/min, ternary, conditions, "
+            "declarations, assignments, call arguments, subscripts, arrays -- quick tier: all small families plus a seeded 6000 of the binary/Math cells) and on "
+            "generated programs with single-edit mutants; the specification's verdict is compared with the implementation's accept/reject on every table program.",
+    "technique": "Coq proofs that each typing decision equals a declarative table + exhaustive differential execution over the operator/operand-type table + spec verdict oracle",
+    "design_ref": "5 C05",
+    "note": "Trusted: harness `vh tir` over the synthetic environment E0 (resolution errors of the type map are C17's subject), vlib/tirtok.py. NOT proved: the statement over "
+            "whole programs (accepted iff well typed in the declarative system) -- an open T2 obligation; callback-parameter compatibility with the signal is checked under C13.",
+}
+
 NOT_YET = {
 }
